@@ -334,7 +334,7 @@ func (u *Unit) evalBuiltin(st *State, call *ast.CallExpr, name string) []Value {
 				cp = u.asInt(u.eval(st, call.Args[2]).term())
 			}
 			if u.checks["make"] {
-				u.oblige(st, "make@"+exprText(call), "make", nil, And(Le(IntLit(0), n), Le(n, cp), Le(cp, pow2(47))), call.Pos(), "make: length in range")
+				u.oblige(st, "make@"+exprText(call), "make", nil, And(Le(IntLit(0), n), Le(n, cp), Le(Mul(cp, IntLit(maxInt64(1, elemSize(tt.Elem())))), pow2(47))), call.Pos(), "make: length in range (non-negative, at most cap, below the runtime's allocation limit)")
 			}
 			if u.checks["alloc"] {
 				lim := u.allocLimit(st)
@@ -412,14 +412,22 @@ func (u *Unit) evalBuiltin(st *State, call *ast.CallExpr, name string) []Value {
 	return nil
 }
 
+func maxInt64(a, b int64) int64 {
+	if a > b {
+		return a
+	}
+	return b
+}
+
 func elemSize(t types.Type) int64 {
 	return types.SizesFor("gc", "amd64").Sizeof(t)
 }
 
 func (u *Unit) allocLimit(st *State) Term {
-	// max(ALLOC_CAP, bytes consumed from the input so far)  -- ghost $consumed if declared
-	if t, ok := u.eng.ghostVars["consumed"]; ok {
-		c := u.load(st, LV{kind: lvGhostVar, name: "consumed", T: t}).term()
+	// max(ALLOC_CAP, 4 * bytes delivered by the input since function entry) -- ghost $consumed
+	if t, ok := u.eng.ghostVars["consumed"]; ok && u.old != nil {
+		lv := LV{kind: lvGhostVar, name: "consumed", T: t}
+		c := Mul(IntLit(4), Sub(u.load(st, lv).term(), u.load(u.old, lv).term()))
 		return Ite(Ge(c, IntLit(allocCapBytes)), c, IntLit(allocCapBytes))
 	}
 	return IntLit(allocCapBytes)
